@@ -6,9 +6,10 @@
    The same predicates are TLC invariants of the model-checking configurations (applied to the
    model's predicted result) and the acceptance condition of trace validation (applied to results
    observed from the real library). *)
-EXTENDS Dom, Api
+EXTENDS Dom, Api, Wrap
 
 Dom1(c, run) == c.doms[run.d]
+MetaGet(c, f, dflt) == IF f \in DOMAIN c.meta THEN c.meta[f] ELSE dflt
 IsOk(run) == run.res.k = "ok"
 LineW(ln) == SumW(ln)
 OutCells(res) == Concat([i \in 1..Len(res.lines) |-> Plain(NoFrags(res.lines[i]))])
@@ -38,4 +39,24 @@ P_C03_run(c, run) ==
        ELSE /\ BagOf(o) = BagOf(v)
             /\ LET ct == CellTexts(dom) IN \A i \in 1..Len(ct) : IsSubseq(ct[i], o)
 P_C03(c) == \A i \in 1..Len(c.runs) : P_C03_run(c, c.runs[i])
+
+(* ---- C04: paragraph wrapping is greedy word filling ------------------------------------- *)
+\* case.meta = [pw |-> prefix width of the enclosing block (0 for a bare paragraph), m |-> max_wrap_width or -1]
+\* decorators without inline affixes (rich / trivial) so that the paragraph's text is its flow text
+StripPrefix(ln, pw) == IF Len(ln) >= pw THEN SubSeq(ln, pw + 1, Len(ln)) ELSE <<>>
+P_C04_run(c, run) ==
+  LET v == FlowTextSeq(Dom1(c, run))
+      words == SplitWords(v)
+      zeroOnly == \E i \in 1..Len(words) : SumW(words[i]) = 0
+      pw == MetaGet(c, "pw", 0)
+      m == MetaGet(c, "m", -1)
+      avail == run.w - pw
+      eff == IF m >= 0 THEN Min2(m, avail) ELSE avail
+      g == Greedy(words, eff)
+      obs == [i \in 1..Len(run.res.lines) |-> StripPrefix(Plain(NoFrags(run.res.lines[i])), pw)]
+  IN (zeroOnly \/ eff < 1 \/ CfgOf(run.cfg).overflow) \/
+     IF g.err THEN run.res.k = "narrow"
+     ELSE /\ run.res.k = "ok"
+          /\ obs = g.lines
+P_C04(c) == \A i \in 1..Len(c.runs) : P_C04_run(c, c.runs[i])
 =============================================================================
